@@ -27,6 +27,8 @@ func init() {
 	ruleText["R12.2"] = "no function reachable from (*Interpreter).CompileAST on the static call graph calls (*Interpreter).run or runCfg"
 	ruleText["R12.3"] = "in the compile passes, a call returning an error is never an expression statement; `_`-discards are limited to the frozen (function, callee) table; an error definition does not reach a later possibly-nil definition of the same variable without an intervening read"
 	ruleText["R12.6"] = "every entry of binaryOpPredicates / unaryOpPredicates accepts exactly the reflect kinds of the operand classes the Go specification gives the operator (kind sets read from the bodies of the kind predicates; disjunctions only), the tables are complete, and isInt/isUint/isFloat/isComplex/isBoolean/isString/isNumber list exactly the kinds of their class"
+	ruleText["R12.7"] = "on the flow graph of (*itype).assignableTo pruned under (A1) both operands named, unequal, underlying types differ and under (A2) both named, unequal, neither defined from the other, every reachable return is `return false`"
+	ruleText["R12.8"] = "the len/cap case of typecheck.builtin accepts Array, Slice, Chan for both and String, Map only under name == bltnLen; on the flow graph of arrayDeref pruned under 'the argument is a pointer to a slice' (helpers evaluated three-valued) every reachable return yields the argument itself"
 	ruleText["R12.5"] = "(a) inside the callbacks of cfg/gta no variable that shadows the pass's error variable receives the error of an in-package call; (b) every post-order case of cfg that wires the false branch of a condition child (setFNext on a local bound from n.child[k]) also checks that the condition is boolean, like its siblings"
 	ruleText["R12.4"] = "every method of type typecheck is reachable from (*Interpreter).cfg on the static call graph (a rule whose call was dropped is dead code)"
 }
@@ -43,6 +45,8 @@ func runC12(c *Config, r *Report) {
 	c12R4(ic, r)
 	c12R5(ic, r)
 	c12R6(ic, r)
+	c12R7(ic, r)
+	c12R8(ic, r)
 }
 
 // shadow exceptions: function -> callee, with the reason.
